@@ -1,6 +1,7 @@
 import enum
 import inspect
 import logging
+from collections import defaultdict
 from collections.abc import Callable, Iterator
 from dataclasses import fields, is_dataclass
 from typing import (
@@ -90,7 +91,9 @@ def build_options(obj: Any, parent: str) -> Iterator[Callable[[FC], FC]]:
 def get_doc_hints(obj: Any) -> dict[str, str]:
     """Return a param-docstring map of the class arguments."""
     docstrings = inspect.getdoc(obj)
-    assert docstrings is not None
+    if docstrings is None or "Args:" not in docstrings:
+        # The interpreter runs with -OO, the options have no help text
+        return defaultdict(str)
 
     start = docstrings.index("Args:") + 6
     params = docstrings[start:].replace("\n        ", " ")
